@@ -1,6 +1,6 @@
 (* C04 - grouping keys are released only above the tau threshold; pinned statements *)
 From Coq Require Import QArith Reals.
-From QV Require Import DP.Tau DP.TauProofs DP.TauSens.
+From QV Require Import DP.Tau DP.TauProofs DP.TauSens DP.TauCap.
 
 (* a released key is a key of the data whose count of distinct units, taken after the cap that
    leaves every unit in at most cu groups, plus the noise, exceeds tau *)
@@ -52,3 +52,19 @@ Print Assumptions C04_count_sensitivity.
 Theorem C04_moved_keys_bound : forall cu rank new u, of_unit u new -> (length (cap cu rank new) <= cu)%nat.
 Proof. exact moved_keys_bound. Qed.
 Print Assumptions C04_moved_keys_bound.
+
+(* the cap is exact: when the ranks drawn for the rows of a unit are pairwise different, the unit is left in
+   exactly min(cu, its number of groups) groups, whatever the ranks are.  The counts the threshold is applied
+   to therefore add up to the sum of these numbers over the units: the invariant the harness checks on the
+   counting relation of every rewritten query *)
+Theorem C04_cap_exact : forall cu rank l u, NoDup (map rank (groups_of u l)) ->
+  length (groups_of u (cap cu rank l)) = Nat.min cu (length (groups_of u l)).
+Proof. exact cap_exact. Qed.
+Print Assumptions C04_cap_exact.
+
+(* non-vacuity: a unit in three groups capped at two keeps the two rows of highest rank *)
+Example C04_example_cap :
+  let l := [(1, 10); (1, 20); (1, 30); (2, 10)]%Z in
+  cap 2 (fun r => snd r) l = [(1, 20); (1, 30); (2, 10)]%Z.
+Proof. vm_compute. reflexivity. Qed.
+
